@@ -1,6 +1,7 @@
 (* C16 — malformed client input yields an error, never a crash or a stalled pipeline. *)
 From Coq Require Import String.
 From Zeno Require Import Base Robust Facts.
+From Zeno Require RowCodec RowCodecP TieRow.
 Local Open Scope string_scope.
 
 (* an entry point that recovers turns every inner outcome (value, error, panic) into a value or an error *)
@@ -25,9 +26,19 @@ Qed.
 Theorem C16_statement_kind_checked : gen_unchecked_select_assertions = 0%Z.
 Proof. reflexivity. Qed.
 
+(* a key of 2^16 bytes or more cannot be held by the row format (its length is written in 16 bits: the file becomes
+   unreadable) — so such a point must be refused, and it is: the guards the translator finds in table.doInsert and
+   DB.InsertRaw on this run keep every stored key below the bound the round-trip theorem needs *)
+Theorem C16_long_key_unrepresentable : exists key cols, RowCodec.zlen key = 2 ^ 16 /\ RowCodec.decode_row (RowCodec.encode_row key cols) = None.
+Proof. exact RowCodecP.long_key_refuted. Qed.
+Theorem C16_long_keys_refused : TieRow.key_guard_as_modelled.
+Proof. exact TieRow.key_guard_as_modelled_holds. Qed.
+
 Print Assumptions C16_entry_total.
 Print Assumptions C16_entry_never_bad.
 Print Assumptions C16_unrecovered_panic_is_crash.
 Print Assumptions C16_entry_points_recover.
 Print Assumptions C16_each_required_site_recovers.
 Print Assumptions C16_statement_kind_checked.
+Print Assumptions C16_long_key_unrepresentable.
+Print Assumptions C16_long_keys_refused.
